@@ -369,6 +369,27 @@ def step (st : DState) (line : String) : DState × String :=
         (st, "ok nodes=" ++ showList (fun (p : Nat × String) => s!"{p.1}:{p.2}") nodes ++ " edges=" ++
           showList (fun (e : R.PEdge) => s!"{e.src}{if e.arrows then ">" else "-"}{e.dst}:{e.title.getD "-"}") edges)
     | none => bad
+  | ["getlinks", v] =>
+    match parseId 'V' v with
+    | some v => if !(w.vOK v) then bad else (st, "ok " ++ showList (fun l => s!"L{l}") (w.links v))
+    | none => bad
+  | ["getunis", v] =>
+    match parseId 'V' v with
+    | some v => if !(w.vOK v) then bad else (st, "ok " ++ showList (fun u => s!"V{u}") (w.unis v))
+    | none => bad
+  | ["getmembers", u] =>
+    match parseId 'V' u with
+    | some u => if !(w.isUni u) then bad else (st, "ok " ++ showList (fun x => s!"V{x}") (w.members u))
+    | none => bad
+  | ["getends", l] =>
+    match parseId 'L' l with
+    | some l => if !(w.lOK l) then bad else (st, "ok " ++ showList showOptV (w.ends l))
+    | none => bad
+  | ["getwl", L] =>
+    match parseId 'W' L with
+    | some L => if !(w.wOK L) then bad else (st, s!"ok r{w.rules L}")
+    | none => bad
+  | "mut" :: _ => (st, "ok")        -- the caller edits a container it holds: nothing to do (C12)
   | ["tsnew", c, a] =>
     match parseId 'C' c, parseId 'A' a with
     | some c, some a =>
